@@ -604,6 +604,7 @@ NatUpd(name, args, env, v, u, lc, fuel) ==
                        ELSE Bind(UpdParts([i \in 1..Len(p.a) |-> [p |-> "idx", i |-> p.a[i], opt |-> FALSE]], 1, w, u, lc, fuel),
                                  LAMBDA z : go(j + 1, z.v))
          IN go(1, v)
+    [] name \in {"first", "last"} /\ Len(args) = 0 -> End(UnkT)   \* manual: short for first(.[]) (not updatable); jaq: .[0]
     [] name \in {"first", "last", "limit", "skip", "path", "path_value", "range", "true", "false", "null", "not",
                  "keys_unsorted", "key_values", "length", "has", "tojson", "tostring", "sort", "reverse",
                  "tobytes", "isempty", "@text", "@json"} -> ErrS(IErr)
